@@ -161,6 +161,23 @@ def sched_preempt_two_upstream(tier, fam="F-sched-preempt-block3", opts=("resume
     return out
 
 
+def mixed_tandem(tier, fam="F-mixed-tandem", kinds=("inf", "sched", "slotted", "slotted-cap", "ps", "c=2"), c2=(1, 2)):
+    """a node of every kind feeding an ordinary finite-server node where customers have to wait: whatever a visit
+    leaves on the customer (server marker, service time, flags) meets the ordinary accept/start path"""
+    K = 3 if tier == "quick" else 4
+    ups = {"inf": "inf", "sched": {"sched": {"numbers": [1, 0, 2], "ends": [1.5, 2.5, 4.0], "preempt": False}},
+           "slotted": {"slotted": {"slots": [1.0, 1.5, 3.0], "sizes": [2, 2, 1], "capacitated": False, "preempt": False}},
+           "slotted-cap": {"slotted": {"slots": [1.0, 1.5, 3.0], "sizes": [2, 2, 1], "capacitated": True, "preempt": False}},
+           "ps": "inf", "c=2": 2}
+    out = []
+    for nm in kinds:
+        for k2 in c2:
+            nk = ({"ps": True} if nm == "ps" else None, None)
+            out.append(tandem("%s -> c=%d with waiting" % (nm, k2), fam, c=(ups[nm], k2), caps=(None, None), K=K, T=12.0, arr=[0.5, 0.25],
+                              srv=[[1.0, 0.5], [2.0, 0.75]], nodekw=nk, D=5 if tier == "quick" else 8, features=[nm, "tandem"]))
+    return out
+
+
 # ------------------------------------------------------------------------------------------------
 # explicit-state families: unbounded arrival streams, populations bounded by system/queue capacities,
 # time-homogeneous dyadic menus => finitely many canonical states (DESIGN 3.6)
